@@ -52,7 +52,20 @@ pub fn to_listing(
             } else {
                 let mut source_line_emitted = false;
 
-                let chunks = data.chunks(num_bytes_per_line);
+                // A row shows consecutive addresses only: bytes that were emitted elsewhere (e.g. by the next iteration
+                // of a loop, or by another invocation of an import) start a row of their own
+                let mut chunks: Vec<Vec<(usize, u8)>> = vec![];
+                for (pc, byte) in data {
+                    match chunks.last_mut() {
+                        Some(chunk)
+                            if chunk.len() < num_bytes_per_line.max(1)
+                                && chunk.last().map(|(prev, _)| prev + 1) == Some(pc) =>
+                        {
+                            chunk.push((pc, byte))
+                        }
+                        _ => chunks.push(vec![(pc, byte)]),
+                    }
+                }
                 for chunk in chunks {
                     let pc = chunk.iter().next().unwrap().0;
                     let bytes = chunk.iter().map(|(_, bytes)| bytes).collect_vec();
